@@ -33,7 +33,7 @@ theorem prefix_of_length_ge {a p : APath} (h : a <+: p) (hl : p.length ≤ a.len
     have := hl; simp at this; exact List.eq_nil_of_length_eq_zero (by omega)
   simp [this]
 
-theorem find?_ext {α : Type} (p q : α → Bool) : ∀ (l : List α), (∀ x ∈ l, p x = q x) → l.find? p = l.find? q := by
+theorem findp_ext {α : Type} (p q : α → Bool) : ∀ (l : List α), (∀ x ∈ l, p x = q x) → l.find? p = l.find? q := by
   intro l
   induction l with
   | nil => intro _; rfl
@@ -72,7 +72,7 @@ theorem find_after_rename (fs fs' : FS) (q b q' : APath) (e : Entry)
   unfold FS.find at hfind ⊢
   rw [List.find?_map]
   have hcongr : fs.find? ((fun x => decide (x.path = q')) ∘ rekey q b) = fs.find? (fun x => decide (x.path = q')) := by
-    apply find?_ext
+    apply findp_ext
     intro x hx
     exact hpred x hx
   rw [hcongr, hfind]
